@@ -239,6 +239,36 @@ PROPS["C12"] = dict(
                "correspondence (0 disagreements).",
 )
 
+PROPS["C13"] = dict(
+    lean_targets=["SJ.Props.C13", "SJ.Audit.C13"],
+    configs=dict(quick=["d"], thorough=["d", "ap", "po"]),
+    gen_keys=["error.", "de.", "ser."],
+    rule="reader side: 15 fixed + 150 (thorough 1500) generated/mutated documents, a reader that fails at every byte k in 0..=len "
+         "with one of 5 error kinds, a random chunking schedule and interleaved Interrupted results, targets Value and IgnoredAny "
+         "(modelled) and five typed targets ((i32,i32), Vec<u8>, BTreeMap<String,Vec<i64>>, Option<(String,bool)>, [();3]; "
+         "spec only), each also run with a clean end of input after the same k bytes; stream iteration over a failing reader; "
+         "writer side: 300 (thorough 3000) serializer programs x {compact, pretty} with a writer accepting m bytes for m in "
+         "0..=len+1 (sampled for long outputs) under random short-write patterns and Interrupted, recording every buffer handed "
+         "to write_all. Non-trivial = k > 0 / m > 0; distinct = distinct lines.",
+    trusted_base=MACHINE_TB + ["serializer model Model.Ser (C03) for the writer side"],
+    assumptions=["io::Bytes retries Interrupted and yields bytes in order; Write::write_all loops over short writes and retries "
+                 "Interrupted (std) — exercised by the harness, not modelled",
+                 "typed targets are judged by the property's predicate against the same bytes followed by a clean end of input"],
+    partial=["whole-program lift of 'every buffer is valid UTF-8 on its own' (c03_utf8_partial + c05_escape_buffers_utf8_cut give it per "
+             "string; the correspondence checks every recorded buffer with Spec.Utf8.validUtf8)",
+             "typed targets have no model yet"],
+    technique="Lean 4 theorems: a reader fault instead of end of input turns the fold's finish into Io unless a delivered byte was "
+              "already rejected (c13_read, by induction over the fold); writer prefix law over the serializer model's buffer list; "
+              "fault-injecting readers/writers against the crate",
+    level_text="Machine-checked: c13_read (reader failing after bs: the result is Io iff no delivered byte is rejected, else exactly the "
+               "error those bytes produce from any source), c13_read_error_class (that error is Syntax-classified and positioned "
+               "within the delivered bytes; never a value, never Eof), c13_write_prefix / c13_write_is_prefix (accepted bytes are the "
+               "first m bytes of the fault-free output; failure iff m < length). The crate is run with readers failing at every "
+               "byte and writers failing after every byte count, with chunking, short writes and Interrupted.",
+    level_note="Trusted: Lean kernel + 3 standard axioms; extract.py; harness/driver; machine and serializer models. std::io retry "
+               "loops are assumed. A genuine defect found by this check (Io error yielded twice by a stream) was repaired in /repo.",
+)
+
 # properties not claimed yet (kept current as checks are added)
 NOT_APPLICABLE = [
     dict(property_id=f"C{i:02d}", reason="check under construction in this build phase; not yet claimed (see DESIGN.md §11 build order)")
